@@ -2,6 +2,7 @@
 #![allow(clippy::all, clippy::pedantic, clippy::nursery)]
 
 mod ast;
+mod c01;
 mod c04;
 mod c06;
 mod canon;
@@ -9,6 +10,10 @@ mod common;
 mod enumr;
 mod gen;
 mod imp;
+mod json;
+mod judge;
+mod refi;
+mod refstd;
 
 use std::path::PathBuf;
 
@@ -24,7 +29,7 @@ pub struct Check {
 }
 
 fn registry() -> Vec<Check> {
-	vec![c04::CHECK, c06::CHECK]
+	vec![c01::CHECK, c04::CHECK, c06::CHECK]
 }
 
 fn usage() -> ! {
